@@ -443,7 +443,7 @@ Qed.
 Lemma canonical_set_text d toks : canonical (items d) -> canonical (items (fst (set_text d toks))).
 Proof.
   intros Hc. unfold set_text. destruct (parse_list toks) as [its|]; cbn [fst items]; [apply canon_canonical|].
-  destruct toks; [exact Hc|]. destruct (forallb is_com (m :: toks)); exact Hc.
+  exact Hc.
 Qed.
 
 Definition is_setitem (o : mop) : bool := match o with OSetItem _ _ _ => true | _ => false end.
@@ -473,7 +473,7 @@ Theorem rejected_unchanged d o : snd (step_res d o) <> ROk -> items (fst (step_r
 Proof.
   destruct o as [t|t|n|neg i t]; cbn [step_res].
   - unfold set_text. destruct (parse_list t); cbn [fst snd items]; [congruence|].
-    intros _. destruct t; [reflexivity|]. now destruct (forallb is_com (m :: t)).
+    intros _. reflexivity.
   - unfold append_medium. destruct (parse_query t) as [q|]; [|reflexivity]. unfold append_q.
     destruct (mem kw_all (ntypes (items d))); [reflexivity|].
     destruct (negb (is_nil (ntype q)) && mem (ntype q) (ntypes (items d))); cbn [snd]; [congruence|].
@@ -843,9 +843,13 @@ Qed.
 Theorem bad_text_rejected d toks :
   parse_list toks = None -> snd (set_text d toks) = RSyntax /\ items (fst (set_text d toks)) = items d.
 Proof.
-  intros H. unfold set_text. rewrite H. cbn [fst snd]. split; [reflexivity|].
-  destruct toks; [reflexivity|]. now destruct (forallb is_com (m :: toks)).
+  intros H. unfold set_text. rewrite H. cbn [fst snd]. split; reflexivity.
 Qed.
+
+(* ... the well-formedness flag included: the whole list is as it was *)
+Theorem bad_text_rejected_whole d toks :
+  parse_list toks = None -> fst (set_text d toks) = d.
+Proof. intros H. unfold set_text. rewrite H. reflexivity. Qed.
 
 (* ---- item assignment does not canonicalise (as the source says) ---- *)
 Definition q_simple (t : str) : mq := mkMq None (Some t) [] [].
@@ -1009,7 +1013,7 @@ Proof.
   intros Hd. destruct o as [t|t|n|neg i t]; unfold step; cbn [step_res].
   - unfold set_text. destruct (parse_list t) as [its|] eqn:E; cbn [fst items].
     + apply (all_ok_sub its); [intros q; apply canon_incl|now apply parse_list_ok with t].
-    + destruct t; [exact Hd|]. now destruct (forallb is_com (m :: t)).
+    + exact Hd.
   - unfold append_medium. destruct (parse_query t) as [q|] eqn:E; [|exact Hd].
     apply parse_query_ok in E. unfold append_q.
     destruct (mem kw_all (ntypes (items d))); [exact Hd|].
